@@ -21,6 +21,9 @@ import (
 func (cx *Ctx) newUnit(name string) *Unit {
 	u := &Unit{cx: cx, enc: NewEnc(), heapSort: map[string]string{}, notes: map[string]bool{}, fnName: name, oblSeq: map[string]int{},
 		callsInlined: map[string]bool{}, callsContract: map[string]bool{}, callsTrusted: map[string]bool{}, callsHavoc: map[string]bool{}, callsNoEffect: map[string]bool{}}
+	u.heapPtr = map[string]string{}
+	u.freshRefs = map[string]bool{}
+	u.dryRows, u.dryWhole = map[string]map[string]bool{}, map[string]bool{}
 	u.regHeap("$alloc", "Int")
 	u.regHeap("$clock", "Int")
 	return u
@@ -34,6 +37,15 @@ type UnitResult struct {
 	Name    string
 	Err     string // engine error (unsupported construct) -> unit not verified
 	Results []*OblResult
+}
+
+// OK: the obligation is discharged. Cover obligations (vacuity checks) fail only when the solver
+// proves the hypotheses contradictory; quantified hypotheses often leave them "unknown".
+func (r *OblResult) OK() bool {
+	if r.Obl.Cover {
+		return r.Status == "sat" || r.Status == "unknown" || r.Status == "timeout"
+	}
+	return r.Status == "unsat"
 }
 
 type OblResult struct {
